@@ -199,6 +199,15 @@ func checkC06(c *Ctx) {
 	kinds := checkDecisionTable(c, "C06.R2", classify, succFn, retryFn)
 	checkActionApplication(c, "C06.R3", kinds)
 	checkRetryCompile(c, "C06.R4")
+	c.Rule("C06.R6", "the backoff function: the term growing with the attempt number is not computed in wrapping integer arithmetic, the attempt number enters as attempt-1, every returned delay is bounded by Cap (directly, through min, or on an edge where value <= Cap holds) before or after the jitter, and the jitter factor lies in [1-J, 1+J] (interval arithmetic over affine forms of rand.Float64() and the configured jitter)")
+	nBack := 0
+	for _, fn := range p.FuncsInPkg("dispatcher") {
+		if fn.Parent() == nil && fn != succFn && fn != retryFn && keep(fn) && len(p.CallSitesOf(fn)) > 0 {
+			nBack++
+			checkBackoffFunction(c, "C06.R6", fn)
+		}
+	}
+	c.Floor("C06.R6", "backoff functions", nBack, 1)
 }
 
 // structFieldStores: constants / values stored into fields of a local struct cell.
